@@ -29,7 +29,7 @@ def generate(r):
     nf = r.randint(1, 5)
     scripts = []
     senders_of = collections.defaultdict(list)
-    pattern = r.choice(["random", "random", "random", "backlog", "pingpong", "fan", "balanced", "balanced", "early_wakes"])
+    pattern = r.choice(["random", "random", "random", "backlog", "pingpong", "fan", "balanced", "balanced", "early_wakes", "stale_sender"])
     preset_spawned = {}
     preset_main = None
 
@@ -76,6 +76,33 @@ def generate(r):
         scripts.append([["recv", ack] for _ in range(handshakes)])
         senders_of[w].append(-1)
         preset_main = feed
+        nf = len(scripts)
+    elif pattern == "stale_sender":
+        # a sender that sleeps on an occupied synchronous channel, is woken early by its completing children, retries and
+        # registers again: it leaves stale registrations of itself among the channel's senders. Later it parks on a second
+        # synchronous channel while the first one is empty and open, which is when its own rescan meets those registrations.
+        # Receivers are released one at a time by handshakes with the main fiber
+        x, y, ack = 0, len(caps), len(caps) + 1
+        caps[x] = 0
+        caps += [0, 0]
+        scripts.append([["send", x, 0]])
+        sleeper = [["spawn", 2 + i] for i in range(r.randint(1, 3))]
+        nchildren = len(sleeper)
+        sleeper += [["send", x, 0]]
+        for _ in range(r.randint(0, 1)):
+            sleeper.append(["spawn", 2 + nchildren])
+            nchildren += 1
+        sleeper += [["send", y, 0]]
+        scripts.append(sleeper)
+        for child in range(nchildren):
+            scripts.append([])
+            preset_spawned[str(2 + child)] = 1
+        delay_x, delay_y = r.randint(1, 2), r.randint(1, 3)
+        scripts.append([["recv", ack] for _ in range(delay_x)] + [["recv", x], ["recv", x]])
+        scripts.append([["recv", ack] for _ in range(delay_y)] + [["recv", y]])
+        preset_main = [["send", ack, 0] for _ in range(delay_x + delay_y)]
+        senders_of[x] += [0, 1]
+        senders_of[y].append(1)
         nf = len(scripts)
     elif pattern == "balanced":
         # count-balanced senders and receivers per channel: completes under every ideal schedule, so every lost
@@ -164,7 +191,7 @@ def generate(r):
 
     # optional close by a fiber that has used the channel, and a drain by someone else
     for ch in range(len(caps)):
-        if pattern == "early_wakes":
+        if pattern in ("early_wakes", "stale_sender"):
             break
         if any(op[0] == "close" and op[1] == ch for script in scripts for op in script):
             continue
